@@ -36,6 +36,8 @@ pub struct Part {
   pub payload: Vec<Value>,
   /// violation (api, kind) -> count
   pub kinds: BTreeMap<String, u64>,
+  /// fingerprints of new states found in a final search layer (counted, not stored; capped)
+  pub fps: HashSet<u64>,
 }
 
 impl Part {
@@ -100,6 +102,11 @@ impl Part {
       e.1 += t;
     }
     self.payload.extend(o.payload);
+    for x in o.fps {
+      if self.fps.len() < 4_000_000 {
+        self.fps.insert(x);
+      }
+    }
     for (k, c) in o.kinds {
       *self.kinds.entry(k).or_insert(0) += c;
     }
